@@ -49,6 +49,7 @@ type Item struct {
 	Loops    []LoopSpec
 	Ghosts   []GhostStmt
 	CalleeOf bool
+	GhostParams []string // "name type": extra universally quantified parameters of the contract, bound at call sites to the caller's variable of that name
 	Logical  bool // the contract file says `logical`: && and || of its specifications are lowered to verifspec.And / Or
 }
 
@@ -377,7 +378,7 @@ func ParseContractFile(repo, rel string) (*ContractFile, error) {
 				schemaHi, _ = strconv.Atoi(strings.TrimSpace(rg[1]))
 			}
 			cur = nil
-		case strings.HasPrefix(t, "func ") || strings.HasPrefix(t, "lemma ") || strings.HasPrefix(t, "ghost") || strings.HasPrefix(t, "iface "):
+		case strings.HasPrefix(t, "func ") || strings.HasPrefix(t, "lemma ") || t == "ghost" || strings.HasPrefix(t, "iface "):
 			cur = &block{schemaLo: schemaLo, schemaHi: schemaHi}
 			cur.lines = append(cur.lines, rl)
 			blocks = append(blocks, cur)
@@ -480,12 +481,17 @@ func ParseContractFile(repo, rel string) (*ContractFile, error) {
 						it.Clauses[len(it.Clauses)-1].Tag = rest
 					}
 				case "option":
-					kv := strings.SplitN(rest, "=", 2)
-					if len(kv) == 2 {
-						it.Options[strings.TrimSpace(kv[0])] = strings.TrimSpace(kv[1])
-					} else {
-						it.Options[strings.TrimSpace(rest)] = "true"
+					// option k=v [k2=v2 …]   (values contain no spaces)
+					for _, one := range strings.Fields(rest) {
+						kv := strings.SplitN(one, "=", 2)
+						if len(kv) == 2 {
+							it.Options[strings.TrimSpace(kv[0])] = strings.TrimSpace(kv[1])
+						} else {
+							it.Options[strings.TrimSpace(one)] = "true"
+						}
 					}
+				case "ghostparam":
+					it.GhostParams = append(it.GhostParams, strings.TrimSpace(rest))
 				case "ghost":
 					// ghost after|before "pattern" [#n] :: stmt
 					g := GhostStmt{}
@@ -656,7 +662,7 @@ func desugar(s string) string {
 	return qualifySpec(r)
 }
 
-var reSpecFn = regexp.MustCompile(`(^|[^A-Za-z0-9_.])(EqT|Eq|SameArray|Same|Fresh|OldBool|OldInt|Old|AtEntry|Calls|NoCalls|Unchanged|Panics|JSONFaithful|AtomicWrites|LastCASOld|CalledOnce|TraceLen|TraceCall|Holding|Shared|Peek|Spawned|RunSpawned|IterLen|IterPosAtEntry|IterPos)\(`)
+var reSpecFn = regexp.MustCompile(`(^|[^A-Za-z0-9_.])(EqT|Eq|SameArray|Same|Fresh|OldBool|OldInt|Old|AtEntry|Calls|NoCalls|Unchanged|Panics|JSONFaithful|AtomicWrites|LastCASOld|CalledOnce|TraceLen|TraceCall|Holding|Shared|Peek|Spawned|RunSpawned|IterLen|IterPosAtEntry|IterProbes|IterPos)\(`)
 
 func qualifySpec(s string) string {
 	for {
@@ -773,4 +779,57 @@ func lowerBoolLine(expr string) string {
 		return expr
 	}
 	return r
+}
+
+// ghostStmt prepares the text of a ghost statement ("a; b" or "{ a; b }"): sugar is expanded in every
+// expression statement, and under `logical` its && / || are lowered.
+func ghostStmt(s string, logical bool) string {
+	t := strings.TrimSpace(s)
+	open, close := "", ""
+	if strings.HasPrefix(t, "{") && strings.HasSuffix(t, "}") {
+		open, close = "{ ", " }"
+		t = strings.TrimSpace(t[1 : len(t)-1])
+	}
+	var parts []string
+	depth, start := 0, 0
+	for i := 0; i < len(t); i++ {
+		switch t[i] {
+		case '(', '[', '{':
+			depth++
+		case ')', ']', '}':
+			depth--
+		case '"':
+			for i++; i < len(t) && t[i] != '"'; i++ {
+				if t[i] == '\\' {
+					i++
+				}
+			}
+		case ';':
+			if depth == 0 {
+				parts = append(parts, t[start:i])
+				start = i + 1
+			}
+		}
+	}
+	parts = append(parts, t[start:])
+	for i, p := range parts {
+		pt := strings.TrimSpace(p)
+		if pt == "" {
+			continue
+		}
+		if strings.Contains(pt, ":=") || strings.HasPrefix(pt, "if ") || strings.HasPrefix(pt, "for ") {
+			parts[i] = " " + qualifySpec(pt)
+			continue
+		}
+		d := desugar(pt)
+		if _, err := parser.ParseExpr(d); err != nil {
+			parts[i] = " " + qualifySpec(pt)
+			continue
+		}
+		if logical {
+			d = lowerBoolLine(d)
+		}
+		parts[i] = " " + d
+	}
+	return open + strings.TrimSpace(strings.Join(parts, ";")) + close
 }
